@@ -103,6 +103,7 @@ type State struct {
 	Owner  map[string]string // fresh ref -> the fresh object whose field holds it
 	LoopHeap map[*ssa.BasicBlock]map[string]string // heap snapshot at the entry of each loop (loopentry())
 	IterHeap map[string]string // heap at the start of the current (arbitrary) loop iteration (iterstart())
+	IterLocals map[*ssa.Alloc]*cell // locals at that moment
 	// Private: refs of struct objects allocated here whose address provably never escapes this body.
 	Private map[string]bool
 }
@@ -124,6 +125,7 @@ func (s *State) clone() *State {
 		Private: s.Private,
 		LoopHeap: s.LoopHeap,
 		IterHeap: s.IterHeap,
+		IterLocals: s.IterLocals,
 		Owner:  s.Owner,
 		Base:   s.Base,
 		Entry:  s.Entry,
